@@ -206,6 +206,9 @@ DIRECTED = [
     # the flavours, one directed history each
     {"flavour": "del_space", "ops": [_np(0, 0, "C", "x", "iox/f0.xlsx", "s0"), {"op": "del_space", "m": 0, "space": "C"},
                                      _np(2, 0, "A", "y", "iox/f0.xlsx", "s0")]},
+    # the deleted space holds the value under two of its own names
+    {"flavour": "del_space", "ops": [_np(0, 0, "C", "x", "iox/c0.csv"), _bind(0, "C", "y", 0, "further"),
+                                     {"op": "del_space", "m": 0, "space": "C"}, _np(3, 0, "A", "y", "iox/c0.csv")]},
     {"flavour": "scalar", "ops": [_np(0, 0, "A", "sc", "iox/f0.xlsx", "s0", bad=True),
                                   _np(1, 0, "A", "y", "iox/f0.xlsx", "s0")]},
     {"flavour": "respec", "ops": [_np(0, 0, "A", "x", "iox/f0.xlsx", "s0"), _np(1, 0, "C", "y", "iox/f1.xlsx", "s0"),
